@@ -235,6 +235,47 @@ def degenerate_requests(rng, n):
 
 
 
+def diagonal_axis_requests(rng, n):
+    """the scattering vector EXACTLY along a sample rotation axis (x, y or z of the phi frame, to the last bit) without the cell being aligned:
+    cubic cell, U a 45-degree turn about a cell axis written out with cos / sin, hkl an in-plane diagonal — (1,1,0) lands on a lab axis with an
+    exact 0.0 in the other component, where the two-sample branches divide by a length that is then exactly zero; every mode with two sample
+    constraints (with a detector or a reference constraint), sample values at multiples of 45 / 90 degrees"""
+    import numpy as np
+    from math import cos, sin, radians
+    from diffcalc.ub.calc import UBCalculation
+    out = []
+    trs = [tr for tr in modes() if sum(1 for x in tr if x in ("mu", "eta", "chi", "phi")) >= 2]
+    c, s = cos(radians(45)), sin(radians(45))
+    US = {"z": [[c, -s, 0], [s, c, 0], [0, 0, 1]], "z-": [[c, s, 0], [-s, c, 0], [0, 0, 1]], "x": [[1, 0, 0], [0, c, -s], [0, s, c]],
+          "y": [[c, 0, s], [0, 1, 0], [-s, 0, c]], "y-": [[c, 0, -s], [0, 1, 0], [s, 0, c]]}
+    HK = {"z": [(1, 1, 0), (1, -1, 0), (-1, -1, 0), (2, 2, 0)], "z-": [(1, 1, 0), (1, -1, 0), (-1, 1, 0)], "x": [(0, 1, 1), (0, 1, -1), (0, -1, -1)],
+          "y": [(1, 0, 1), (1, 0, -1), (-1, 0, -1)], "y-": [(1, 0, 1), (-1, 0, 1), (1, 0, -1)]}
+    for _ in range(n):
+        ax = rng.choice(sorted(US))
+        a, wl = rng.choice([(1.0, 1.0), (1.5, 1.0), (1.0, 1.2), (2.0, 1.5), (1.5, 1.5), (3.0, 1.0)])
+        with quiet():
+            ub = UBCalculation("t")
+            ub.set_lattice("x", a)
+            ub.set_u(US[ax])
+        ub.n_phi = rng.choice([(0, 0, 1), (1, 0, 0), (0.3, 1, 0.2)])
+        ub.surf_nphi = (0, 0, 1)
+        tr = rng.choice(trs)
+        vals = {}
+        for nm in tr:
+            if nm in ("a_eq_b", "bin_eq_bout", "bisect"):
+                vals[nm] = True
+            elif nm in ("mu", "eta", "chi", "phi"):
+                vals[nm] = float(rng.choice([0, 0, 0, 90, -90, 180, 45, -45]))
+            elif nm == "qaz":
+                vals[nm] = float(rng.choice([90, 90, 0, 30]))
+            elif nm in ("nu", "delta"):
+                vals[nm] = float(rng.choice([0, 0, 20, 90]))
+            else:
+                vals[nm] = float(rng.choice(SPECIAL + [12.5]))
+        out.append((ub, vals, tuple(float(x) for x in rng.choice(HK[ax])), wl, "diagonal-axis"))
+    return out
+
+
 def exact_ttheta_requests(rng, per_mode):
     """requests whose Bragg angle is exactly 2theta = 90 (or 60 / 120): wavelength = 2 d sin(theta); constraint values generic and special.
     Exact two-theta values are where the detector layers take their `is_small` shortcuts."""
